@@ -4,6 +4,35 @@ use hifitime::efmt::{consts, Format, Formatter};
 use hifitime::ParsingError;
 use std::str::FromStr;
 
+/// The same JSON string delivered the ways serde_json can deliver it: borrowed text, an owned Value,
+/// a reader, and text whose non-ASCII characters are written as \u escapes.
+fn serde_paths<T: serde::de::DeserializeOwned>(js: &str, same: impl Fn(&T, &T) -> bool) -> Result<T, ()> {
+    let a: Result<T, _> = serde_json::from_str(js);
+    let v: serde_json::Value = serde_json::from_str(js).expect("a JSON string");
+    let b: Result<T, _> = serde_json::from_value(v);
+    let c: Result<T, _> = serde_json::from_reader(js.as_bytes());
+    let mut esc = String::new();
+    for ch in js.chars() {
+        if ch.is_ascii() {
+            esc.push(ch);
+        } else {
+            let mut buf = [0u16; 2];
+            for u in ch.encode_utf16(&mut buf) {
+                esc.push_str(&format!("\\u{:04x}", u));
+            }
+        }
+    }
+    let d: Result<T, _> = serde_json::from_str(&esc);
+    for (name, o) in [("from_value", &b), ("from_reader", &c), ("escaped text", &d)] {
+        match (&a, o) {
+            (Ok(x), Ok(y)) => assert!(same(x, y), "serde_json {name} gives another value than from_str"),
+            (Err(_), Err(_)) => {}
+            _ => panic!("serde_json {name} and from_str disagree on acceptance"),
+        }
+    }
+    a.map_err(|_| ())
+}
+
 pub fn s_of(v: &[i128]) -> String {
     v.iter().map(|c| char::from_u32(*c as u32).expect("not a scalar value")).collect()
 }
@@ -148,7 +177,8 @@ pub fn run(name: &str, a: &Args) -> Option<String> {
             // the serde form is the same string, quoted
             let js = serde_json::to_string(&e).expect("serialize");
             assert!(js == format!("\"{s}\""), "serde_json form differs from Display");
-            let back: Result<hifitime::Epoch, _> = serde_json::from_str(&js);
+            let back: Result<hifitime::Epoch, ()> =
+                serde_paths(&js, |x: &hifitime::Epoch, y: &hifitime::Epoch| x.duration.to_parts() == y.duration.to_parts() && x.time_scale == y.time_scale);
             match (&r, &back) {
                 (Ok(x), Ok(y)) => assert!(x.duration.to_parts() == y.duration.to_parts() && x.time_scale == y.time_scale),
                 (Err(_), Err(_)) => {}
@@ -178,7 +208,7 @@ pub fn run(name: &str, a: &Args) -> Option<String> {
             let r = hifitime::Duration::from_str(&s);
             let js = serde_json::to_string(&d).expect("serialize");
             assert!(js == format!("\"{s}\""), "serde_json form differs from Display");
-            let back: Result<hifitime::Duration, _> = serde_json::from_str(&js);
+            let back: Result<hifitime::Duration, ()> = serde_paths(&js, |x: &hifitime::Duration, y: &hifitime::Duration| x.to_parts() == y.to_parts());
             match (&r, &back) {
                 (Ok(x), Ok(y)) => assert!(x.to_parts() == y.to_parts()),
                 (Err(_), Err(_)) => {}
